@@ -5,7 +5,7 @@ import json, os, shutil, glob, sys
 HERE = os.path.dirname(os.path.dirname(os.path.abspath(__file__)))
 matrix = json.load(open(os.path.join(HERE, 'seeded', 'matrix.json')))
 rows = []
-for rnd, incname in ((1, '_incoming'), (2, '_incoming2'), (3, '_incoming3')):
+for rnd, incname in ((1, '_incoming'), (2, '_incoming2'), (3, '_incoming3'), (4, '_incoming4')):
     INC = os.path.join(HERE, 'seeded', incname)
     if not os.path.exists(os.path.join(INC, 'validation.json')):
         continue
@@ -48,7 +48,7 @@ for rnd, incname in ((1, '_incoming'), (2, '_incoming2'), (3, '_incoming3')):
         rows.append((sid, prop, (am.get('summary') or '')[:150].replace('\n', ' ').replace('|', '/'), caught, own))
 with open(os.path.join(HERE, 'seeded', 'README.md'), 'w') as f:
     f.write('# Seeded changes and which checks report them\n\n')
-    f.write('%d changes produced by independent sub-agents (one per property, three each per round; round 2 was told which ideas round 1 had used)' % len(rows) + ', each confirmed here: with the patch the\nrepository\'s suite passes and the demonstration fails, without it the demonstration passes. `caught by` lists every quick\ncheck that exits 1 on the patched tree (matrix.json has rule names and counts). None of these patches is ever committed to /repo.\n\n')
+    f.write('%d changes produced by independent sub-agents (one per property and round, three changes each; from round 2 on the agents were told which ideas the earlier rounds had used)' % len(rows) + ', each confirmed here: with the patch the\nrepository\'s suite passes and the demonstration fails, without it the demonstration passes. `caught by` lists every quick\ncheck that exits 1 on the patched tree (matrix.json has rule names and counts). None of these patches is ever committed to /repo.\n\n')
     f.write('| seed | summary | caught by own check | caught by |\n|---|---|---|---|\n')
     for sid, prop, summ, caught, own in rows:
         f.write('| %s | %s | %s | %s |\n' % (sid, summ, 'yes' if own else '**no**', ' '.join(caught)))
